@@ -35,6 +35,10 @@ def cases(shard, tier):
         if src in ('struct', 'h5') and shard['topo'] in ('alias', 'alias-same-frame'):
             continue        # aliasing needs a data set name that differs from the channel name: dict/inline only
         yield {'dtype': d, 'topo': shard['topo'], 'width': width, 'cast': cast, 'dim': dim, 'el': el, 'src': src}
+        if (dim != 'unset' or el != 'unset' or cast) and src in ('inline', 'dict'):
+            # the same user values assigned through the public setters after the channel was created
+            yield {'dtype': d, 'topo': shard['topo'], 'width': width, 'cast': cast, 'dim': dim, 'el': el, 'src': src,
+                   'route': 'later'}
         if src == 'dict' and dim == 'unset' and el in ('unset', 'larger'):
             # the same objects were written before with data of another width / another dtype
             for earlier in ('other-width', 'other-dtype'):
@@ -78,7 +82,17 @@ def make_spec(c):
             data[k.get('dataset_name') or name] = a
         ops.append(S.op_add('channel', h, name, **{x: y for x, y in k.items() if y is not None}))
 
-    chan('C0', 'CH-T', arr, **kw)
+    if c.get('route') == 'later':
+        chan('C0', 'CH-T', arr)
+        for key, val in kw.items():
+            if val is None:
+                continue
+            if key == 'cast_dtype':
+                ops.append({'op': 'cast', 'h': 'C0', 'value': val})
+            else:
+                ops.append({'op': 'set', 'h': 'C0', 'attr': key, 'part': 'value', 'value': val})
+    else:
+        chan('C0', 'CH-T', arr, **kw)
     idx = S.arr_spec('float64', [rows], [0x3FF0000000000000, 0x4000000000000000])
     t = c['topo']
     if t == 'plain':
